@@ -42,7 +42,7 @@ std::string mutate(std::string text, DP &dp, std::string &what) {
 	static const char *JUNK[] = {"[]", "{}", "[a, b]", "{a: b}", "&anchor x", "*alias", "!!str 5", "~", "\"\"", "0xZZ", "256", "-1", "0x",
 	                             "0x012345678", "1e9", "yes", "|", ">", "? x", "'unterminated", "\"unterminated", "@", "%TAG", "0x00000000000000",
 	                             "xxxxxxxxxxxxxxxxxxxxxxxxxxxxxxxxxxxxxxxxxxxxxxxxxxxxxxxxxxxxxxxxxxxxxxxxxxxxxxxxxxxxxxxxxxxxxxxxxxxxxxxxxxxxxxxxxxxxxxxxxxxxxxxx"};
-	unsigned k = dp.weighted({6, 5, 4, 4, 6, 8, 3, 3, 2, 2, 2});
+	unsigned k = dp.weighted({6, 5, 4, 4, 6, 8, 3, 3, 2, 2, 2, 7});
 	size_t n = v.size();
 	size_t i = n ? dp.pick((unsigned) n) : 0, j = n ? dp.pick((unsigned) n) : 0;
 	if (n > 1 && v[i].rfind("#", 0) == 0) i = (i + 1) % n;       // the leading comment line is no interesting target
@@ -82,6 +82,24 @@ std::string mutate(std::string text, DP &dp, std::string &what) {
 	case 7: what = "insert document separator"; v.insert(v.begin() + (long) (n ? i : 0), dp.flag() ? "---" : "..."); break;
 	case 8: if (n) { what = "tab in line " + std::to_string(i); v[i] = "\t" + v[i]; } break;
 	case 9: if (n) { what = "insert list item"; v.insert(v.begin() + (long) i, std::string((size_t) dp.range(0, 10), ' ') + "- " + KEYS[dp.pick(sizeof KEYS / sizeof *KEYS)] + ": 1"); } break;
+	case 11: if (n) {   // copy the value of one key onto another line with the same key (duplicate ids / numbers / addresses of every kind)
+			size_t c = v[i].find(':');
+			size_t st = v[i].find_first_not_of(" -");
+			if (c != std::string::npos && st != std::string::npos && st < c && c + 1 < v[i].size()) {
+				std::string key = v[i].substr(st, c - st);
+				std::vector<size_t> same;
+				for (size_t q = 0; q < n; q++) {
+					size_t c2 = v[q].find(':'), s2 = v[q].find_first_not_of(" -");
+					if (q != i && c2 != std::string::npos && s2 != std::string::npos && s2 < c2 && v[q].substr(s2, c2 - s2) == key && c2 + 1 < v[q].size()) same.push_back(q);
+				}
+				if (!same.empty()) {
+					size_t q = same[dp.pick((unsigned) same.size())];
+					what = "copy value of '" + key + "' from line " + std::to_string(i) + " to line " + std::to_string(q);
+					v[q] = v[q].substr(0, v[q].find(':')) + v[i].substr(c);
+				}
+			}
+		}
+		break;
 	default: {
 		what = "raw byte noise";
 		std::string t = join(v);
@@ -104,9 +122,17 @@ void prop(DP &dp, const ref::Bytes &sched, Ctx &ctx) {
 	n.prepare(dp, sched, o);
 	n.bus.silent = dp.chance(50);
 	std::string files[3] = {n.c.board_yaml(), n.c.track_yaml(), n.c.train_yaml()};
+	std::string semantic_fault;
+	if (dp.chance(50)) {
+		// start from a configuration with one semantic fault of C14's rejection list (duplicates of every id kind, shared addresses ...)
+		int cls = (int) dp.pick((unsigned) cfg::N_FAULT_CLASSES);
+		cfg::Faulted f = cfg::inject_fault(n.c, cls, dp);
+		if (!f.cls.empty()) { files[0] = f.board; files[1] = f.track; files[2] = f.train; semantic_fault = f.cls; }
+	}
 	bool missing[3] = {false, false, false};
 	unsigned nm = 1 + dp.weighted({6, 3, 1});
 	ctx.desc << "C13 base: " << n.c.summary() << "\n bus: " << n.bus.describe() << "\n";
+	if (!semantic_fault.empty()) { ctx.desc << " semantic fault: " << semantic_fault << "\n"; ctx.tag("semantic-fault:" + semantic_fault); }
 	std::string ops;
 	for (unsigned m = 0; m < nm; m++) {
 		unsigned f = dp.weighted({3, 5, 3});
